@@ -4,11 +4,14 @@ from . import common, pipe_checks, pipe_explore
 
 def run(ctx: common.Ctx):
     ctx.coverage['rule'] = (
-        'generated references (3-6 genes), records over several transcripts, optionally '
+        'generated references (3-6 genes), records over several transcripts (in 75 % of the inputs '
+        'plus planted I->L SNVs: variant peptides that only the GLOBAL canonical pool removes), optionally '
         '--noncanonical-transcripts (creates skipped transcripts); baseline threads=1 single GVF; '
         'variations: threads {2,3} quick / {2,3,4,7} thorough, random partitions of the records '
         'into 2-3 GVF files in shuffled order with/without .idx, .idx on the original files, '
-        'reference via generateIndex directory, PYTHONHASHSEED in subprocesses; the set of output '
+        'reference via generateIndex directory and via the same directory after ONE updateIndex with '
+        'other cleavage parameters (miscleavage 0/1/3, min length 9, lysc) read with the original '
+        'parameters, PYTHONHASHSEED in subprocesses; the set of output '
         'sequences must equal the baseline; batches/table/FASTA/tally of thread runs compared '
         'with the Lean model. non-trivial = run with >= 1 peptide')
     stats = pipe_checks.run_workers(ctx, pipe_explore.c06_worker, ctx.n(28, 300))
